@@ -77,6 +77,10 @@ def gen_cases(seed, tier, n):
                             e2["args"]["correlation"] = e2["args"]["correlation"] + rep * 100000
                         extra.append(e2)
                 rk["events"] = evs + extra
+        if i % 9 in (2, 5):
+            # a host thread sharing (pid, tid) with a device stream: such a group is neither a thread nor a stream, but the operators of
+            # the ordinary threads are counted as ever
+            tracegen.host_rows_on_a_stream(c, random.Random(seed * 611953 + i))
         if i % 8 == 6:
             fw.set_quarter_us(c)           # quarter-microsecond resolution (framework.resolution)
         if i % 7 == 3:
